@@ -47,6 +47,11 @@ claim("C08",
       "Known finding: the LRU heap pops the most recently used entry (pinned by Test_CacheLRU). Bounds in the evidence assumptions.",
       "DESIGN.md C08")
 
+claim("C06",
+      "The real AuthorizeConnection is executed symbolically for arbitrary rule lists and command shapes and must agree with the declarative policy of the property (all categories, the command, every channel, every read key, every write key); glob matching is an uninterpreted predicate, so the result holds for every pattern semantics. Key-extraction completeness is checked for every data command by recording wrappers around the keyspace callbacks. The dispatcher gate is checked for every registered command and subcommand with a deny-all user.",
+      "Bounds in the evidence assumptions; gobwas/glob itself is outside the claim.",
+      "DESIGN.md C06")
+
 # every property without a claim is listed as not applicable (yet) with its reason
 NA_REASONS = {}
 for n in range(1, 21):
